@@ -1694,7 +1694,7 @@ func IsSelectAllAggregate(query *Query) bool {
 
 func ExecSelect(query *Query, current []any) ([]any, error) {
 	copy := make([]any, 0)
-	if IsSelectAllAggregate(query) {
+	if len(query.groupDefinition) == 0 && IsSelectAllAggregate(query) {
 		rs, err := SelectExpr(query, nil, &query.selectDefinition)
 		if err != nil {
 			return nil, err
